@@ -1,6 +1,8 @@
 --------------------------- MODULE Trace_Encoding --------------------------
 (* Traces recorded from the real code.  Two kinds of trace:                                    *)
-(*  k = "parse":  one HTMLParser.parse(bytes, **kwargs) call.                                  *)
+(*  k = "parse":  one HTMLParser.parse(bytes, **kwargs) or parseFragment(bytes, container, **kwargs) *)
+(*     call (ep = "parse" | "fragment", container): the same stream, hooks and clauses apply to   *)
+(*     both entry points; in a fragment the very first characters are significant.                *)
 (*     data   first bytes of the input (at least the prescan window)                           *)
 (*     src    how the bytes were handed over: "bytes", "bytesio" or "pipe" (read() only)        *)
 (*     raised the stream constructor and parse() raised AssertionError (then nothing else)      *)
@@ -9,7 +11,8 @@
 (*                   HTMLBinaryInputStream (= before the first character is decoded)            *)
 (*     ev     one record per meta start tag that reached InHeadPhase.startTagMeta, in order     *)
 (*            (both passes): attributes cs/he/ct, charEncoding before (be,bc) and after (ae,ac), *)
-(*            calls = arguments of the changeEncoding calls it made, r = it restarted the parse  *)
+(*            calls = arguments of the changeEncoding calls it made, r = it restarted the parse, *)
+(*            hb/ha = the stream held back a chunk-final character before / after the event      *)
 (*     e,c    documentEncoding / confidence when parse() returned;  ds = the live decoder       *)
 (*            object belongs to that encoding;  restarts = number of restarts                   *)
 (*     tf     tree = tree of parse(stream-decoded bytes[from:], e), from = where the model says  *)
@@ -66,13 +69,15 @@ StepInit(tr) ==
 StepEvent(tr, r) ==
     LET ev == tr.ev[r.l]
         attrs == [cs |-> ev.cs, he |-> ev.he, ct |-> ev.ct]
-        s0 == IF r.st.pc = "restart" THEN Restarted(r.st) ELSE r.st
+        sr == IF r.st.pc = "restart" THEN Restarted(r.st) ELSE r.st
+        s0 == ChunkRead(sr, ev.hb)          \* chunk reads between two metas are inputs of the trace
         call == MetaCall(s0, attrs, D)
         s2 == MetaTag(s0, attrs, D)
         Eff(DD) == LET x == MetaTag(s0, attrs, DD) IN <<x.enc, x.conf, x.pc>>
     IN  IF ev.be # s0.enc \/ ev.bc # s0.conf THEN R(r.l, "reject:event-before", r.st, r.fk)
         ELSE IF ev.calls # (IF call.call THEN <<call.label>> ELSE <<>>) THEN R(r.l, "reject:event-call", r.st, r.fk)
         ELSE IF ev.ae # s2.enc \/ ev.ac # s2.conf \/ ev.r # (s2.pc = "restart") THEN R(r.l, "reject:event-after", r.st, r.fk)
+        ELSE IF ev.ha # s2.held THEN R(r.l, "reject:event-held-character", r.st, r.fk)   \* a restart leaves nothing held back
         ELSE IF ~CertainStable(s0, [enc |-> ev.ae, conf |-> ev.ac]) THEN R(r.l, "reject:certain-changed", r.st, r.fk)
         ELSE R(r.l + 1, "run", s2, IF Eff({}) = Eff(D) THEN r.fk ELSE r.fk \cup Attrib(Eff, LateCand))
 
